@@ -1,0 +1,163 @@
+// SPDX-License-Identifier: Apache-2.0 OR MIT
+
+//! Verification hooks (only with `--cfg fast_tlsh_verif`): call each compiled
+//! bucket aggregation backend directly.
+//!
+//! Nothing in this module is compiled unless the `fast_tlsh_verif` cfg is set.
+
+#![cfg(fast_tlsh_verif)]
+#![allow(missing_docs)]
+#![allow(clippy::missing_docs_in_private_items)]
+
+/// Bucket aggregation backends.
+#[derive(Debug, Clone, Copy, PartialEq, Eq)]
+pub enum VerifAggregationBackend {
+    /// The function used by the generator (static or dynamic dispatch).
+    Dispatch,
+    /// The naïve implementation.
+    Naive,
+    /// x86 SSE2.
+    Sse2,
+    /// x86 SSSE3.
+    Ssse3,
+    /// x86 AVX2.
+    Avx2,
+}
+
+/// Generates per-backend functions.
+macro_rules! verif_aggregate_by {
+    {$($by:ident = ($name:ident, $size_small:literal, $size_large:literal);)*} => {
+        $(
+            /// Aggregates the buckets by the given backend
+            /// (requires `q1 <= q2 <= q3`).
+            ///
+            /// Returns `false` (leaving `out` untouched) if the backend is not
+            /// compiled in (or not supported by the CPU).
+            #[allow(unreachable_code)]
+            pub fn $by(
+                backend: VerifAggregationBackend,
+                out: &mut [u8; $size_small],
+                buckets: &[u32; $size_large],
+                q1: u32,
+                q2: u32,
+                q3: u32,
+            ) -> bool {
+                match backend {
+                    VerifAggregationBackend::Dispatch => {
+                        super::$name(out, buckets, q1, q2, q3);
+                        true
+                    }
+                    VerifAggregationBackend::Naive => {
+                        super::naive::$name(out, buckets, q1, q2, q3);
+                        true
+                    }
+                    VerifAggregationBackend::Sse2 => {
+                        #[cfg(all(
+                            feature = "simd-per-arch",
+                            feature = "opt-simd-bucket-aggregation",
+                            feature = "detect-features",
+                            any(target_arch = "x86", target_arch = "x86_64")
+                        ))]
+                        {
+                            if std::arch::is_x86_feature_detected!("sse2") {
+                                #[allow(unsafe_code)]
+                                unsafe {
+                                    super::x86_sse2::$name(out, buckets, q1, q2, q3)
+                                };
+                                return true;
+                            }
+                        }
+                        #[cfg(all(
+                            feature = "simd-per-arch",
+                            feature = "opt-simd-bucket-aggregation",
+                            not(feature = "detect-features"),
+                            any(target_arch = "x86", target_arch = "x86_64"),
+                            not(target_feature = "avx2"),
+                            not(target_feature = "ssse3"),
+                            target_feature = "sse2"
+                        ))]
+                        {
+                            #[allow(unsafe_code)]
+                            unsafe {
+                                super::x86_sse2::$name(out, buckets, q1, q2, q3)
+                            };
+                            return true;
+                        }
+                        false
+                    }
+                    VerifAggregationBackend::Ssse3 => {
+                        #[cfg(all(
+                            feature = "simd-per-arch",
+                            feature = "opt-simd-bucket-aggregation",
+                            feature = "detect-features",
+                            any(target_arch = "x86", target_arch = "x86_64")
+                        ))]
+                        {
+                            if std::arch::is_x86_feature_detected!("ssse3") {
+                                #[allow(unsafe_code)]
+                                unsafe {
+                                    super::x86_ssse3::$name(out, buckets, q1, q2, q3)
+                                };
+                                return true;
+                            }
+                        }
+                        #[cfg(all(
+                            feature = "simd-per-arch",
+                            feature = "opt-simd-bucket-aggregation",
+                            not(feature = "detect-features"),
+                            any(target_arch = "x86", target_arch = "x86_64"),
+                            not(target_feature = "avx2"),
+                            target_feature = "ssse3"
+                        ))]
+                        {
+                            #[allow(unsafe_code)]
+                            unsafe {
+                                super::x86_ssse3::$name(out, buckets, q1, q2, q3)
+                            };
+                            return true;
+                        }
+                        false
+                    }
+                    VerifAggregationBackend::Avx2 => {
+                        #[cfg(all(
+                            feature = "simd-per-arch",
+                            feature = "opt-simd-bucket-aggregation",
+                            feature = "detect-features",
+                            any(target_arch = "x86", target_arch = "x86_64")
+                        ))]
+                        {
+                            if std::arch::is_x86_feature_detected!("avx2") {
+                                #[allow(unsafe_code)]
+                                unsafe {
+                                    super::x86_avx2::$name(out, buckets, q1, q2, q3)
+                                };
+                                return true;
+                            }
+                        }
+                        #[cfg(all(
+                            feature = "simd-per-arch",
+                            feature = "opt-simd-bucket-aggregation",
+                            not(feature = "detect-features"),
+                            any(target_arch = "x86", target_arch = "x86_64"),
+                            target_feature = "avx2"
+                        ))]
+                        {
+                            #[allow(unsafe_code)]
+                            unsafe {
+                                super::x86_avx2::$name(out, buckets, q1, q2, q3)
+                            };
+                            return true;
+                        }
+                        false
+                    }
+                }
+            }
+        )*
+    }
+}
+
+verif_aggregate_by! {
+    aggregate_48_by  = (aggregate_48,  12,  48);
+    aggregate_128_by = (aggregate_128, 32, 128);
+    aggregate_256_by = (aggregate_256, 64, 256);
+}
